@@ -13,7 +13,7 @@ for ID in $IDS; do
   C=${ID%-*}
   EXTRA=$(python3 -c "
 import json;m=json.load(open('$D/meta.json'))
-print(' '.join(sorted({l.split(']')[0][1:] for l in m.get('check_output',[]) if l.startswith('[C') and 'VIOLATION' in l} - {'$C'})))" 2>/dev/null)
+print(' '.join(sorted(({l.split(']')[0][1:] for l in m.get('check_output',[]) if l.startswith('[C') and 'VIOLATION' in l} | set(str(m.get('caught_by','')).split())) - {'$C'})))" 2>/dev/null)
   if [ -n "$(python3 -c "import json;print(json.load(open('$D/meta.json')).get('obsolete',''))")" ]; then echo "$ID obsolete (see meta.json)" >> $OUT; continue; fi
   git -C $WT checkout -q -- .
   if ! git -C $WT apply $D/patch.diff 2>/dev/null; then echo "$ID PATCH-DOES-NOT-APPLY" >> $OUT; continue; fi
